@@ -119,19 +119,31 @@ theorem stripAux_fuel : ∀ (f : Nat) (p : Option Char) (l : List Char) (g : Nat
     simp at h1 h2
     simp [stripAux, hs]
     exact ih g (by len) (by len)
-  | case9 fuel p r' a b hs hb1 hb2 _ ih =>
+  | case9 fuel p r' a _ hs =>
+    intro g h1 h2
+    obtain ⟨g, rfl⟩ : ∃ g', g = g' + 1 := ⟨g - 1, by omega⟩
+    simp [stripAux, hs]
+  | case10 fuel p r' a t _ hs ih =>
+    intro g h1 h2
+    obtain ⟨g, rfl⟩ : ∃ g', g = g' + 1 := ⟨g - 1, by omega⟩
+    have := (spanLine_eq _ _ _ hs).1
+    have hl : (t.length + 2) ≤ r'.length := by rw [this]; simp <;> omega
+    simp at h1 h2
+    simp [stripAux, hs]
+    exact ih g (by len) (by len)
+  | case11 fuel p r' a b hs hb1 hb2 hb3 hb4 _ ih =>
     intro g h1 h2
     obtain ⟨g, rfl⟩ : ∃ g', g = g' + 1 := ⟨g - 1, by omega⟩
     simp at h1 h2
     have := ih g (by len) (by len)
     simpa [stripAux, hs] using this
-  | case10 fuel p r h1' h2' _ ih =>
+  | case12 fuel p r h1' h2' _ ih =>
     intro g h1 h2
     obtain ⟨g, rfl⟩ : ∃ g', g = g' + 1 := ⟨g - 1, by omega⟩
     simp at h1 h2
     have := ih g (by omega) (by omega)
     rw [stripAux_slash _ _ _ h1' h2', this]
-  | case11 fuel p c r hc1 hc2 ih =>
+  | case13 fuel p c r hc1 hc2 ih =>
     intro g h1 h2
     obtain ⟨g, rfl⟩ : ∃ g', g = g' + 1 := ⟨g - 1, by omega⟩
     simp at h1 h2
@@ -176,8 +188,22 @@ theorem strip_line_nl (p : Option Char) (r a t : List Char) (hs : spanLine r = (
   simp [stripFrom, stripAux, hs]
   exact stripAux_strip _ _ _ (by rw [this]; len)
 
+/-- `// body` up to a CR that ends the text: all of it is the comment (fix F73) -/
+theorem strip_line_cr_end (p : Option Char) (r a : List Char) (hs : spanLine r = (a, ['\r'])) :
+    stripFrom p ('/' :: '/' :: r) = [] := by
+  simp [stripFrom, stripAux, hs]
+
+/-- `// body` up to CR LF: the CR belongs to the comment, the scan goes on at the LF (fix F73) -/
+theorem strip_line_crlf (p : Option Char) (r a t : List Char) (hs : spanLine r = (a, '\r' :: '\n' :: t)) :
+    stripFrom p ('/' :: '/' :: r) = stripFrom (some '\r') ('\n' :: t) := by
+  have := (spanLine_eq _ _ _ hs).1
+  simp [stripFrom, stripAux, hs]
+  exact stripAux_strip _ _ _ (by rw [this]; len)
+
+/-- `// body` up to a CR that is followed by something else than LF: no comment -/
 theorem strip_line_cr (p : Option Char) (r a b : List Char) (hs : spanLine r = (a, b)) (h1 : b ≠ [])
-    (h2 : ∀ t, b ≠ '\n' :: t) : stripFrom p ('/' :: '/' :: r) = '/' :: stripFrom (some '/') ('/' :: r) := by
+    (h2 : ∀ t, b ≠ '\n' :: t) (h3 : b ≠ ['\r']) (h4 : ∀ t, b ≠ '\r' :: '\n' :: t) :
+    stripFrom p ('/' :: '/' :: r) = '/' :: stripFrom (some '/') ('/' :: r) := by
   simp [stripFrom, stripAux, hs]
 
 theorem strip_slash (p : Option Char) (r : List Char) (h1 : ∀ r', r = '*' :: r' → False)
@@ -225,6 +251,17 @@ theorem splitAtClose_first (a : List Char) : ∀ (body : List Char), hasClose bo
 
 theorem spanLine_first (a : List Char) : ∀ (body : List Char), (∀ c ∈ body, isEol c = false) →
     spanLine (body ++ '\n' :: a) = (body, '\n' :: a) := by
+  intro body
+  induction body with
+  | nil => intro _; simp [spanLine]
+  | cons c b ih =>
+    intro h
+    have hc := h c (by simp)
+    simp [isEol] at hc
+    simp [spanLine, hc, ih (fun d hd => h d (by simp [hd]))]
+
+theorem spanLine_first_cr (a : List Char) : ∀ (body : List Char), (∀ c ∈ body, isEol c = false) →
+    spanLine (body ++ '\r' :: a) = (body, '\r' :: a) := by
   intro body
   induction body with
   | nil => intro _; simp [spanLine]
@@ -294,6 +331,21 @@ theorem comment_line (p : Option Char) (a o body b : List Char) (h : Closed p a 
   have := strip_line_nl (lastOr p a) _ body b (spanLine_first b body hb)
   simp only [List.cons_append] at this ⊢
   rw [strip_append p a o _ (by simpa using h), this]
+
+theorem comment_line_crlf (p : Option Char) (a o body b : List Char) (h : Closed p a (some '/') o)
+    (hb : ∀ c ∈ body, isEol c = false) :
+    stripFrom p (a ++ ('/' :: '/' :: body ++ '\r' :: '\n' :: b)) = o ++ stripFrom (some '\r') ('\n' :: b) := by
+  have := strip_line_crlf (lastOr p a) _ body b (spanLine_first_cr ('\n' :: b) body hb)
+  simp only [List.cons_append] at this ⊢
+  rw [strip_append p a o _ (by simpa using h), this]
+
+theorem comment_line_cr_end (p : Option Char) (a o body : List Char) (h : Closed p a (some '/') o)
+    (hb : ∀ c ∈ body, isEol c = false) :
+    stripFrom p (a ++ ('/' :: '/' :: body ++ ['\r'])) = o := by
+  have := strip_line_cr_end (lastOr p a) _ body (spanLine_first_cr [] body hb)
+  simp only [List.cons_append] at this ⊢
+  rw [strip_append p a o _ (by simpa using h), this]
+  simp
 
 /-- what stands in front of a text only matters when the text starts with a block comment -/
 theorem stripFrom_prev (p p' : Option Char) (l : List Char) (h : ∀ r, l ≠ '/' :: '*' :: r) : stripFrom p l = stripFrom p' l := by
@@ -374,9 +426,21 @@ theorem newlines_stripAux (f : Nat) (p : Option Char) (l : List Char) : newlines
     have e' : '/' :: '/' :: (a ++ '\n' :: tail) = ['/', '/'] ++ a ++ ('\n' :: tail) := by simp
     rw [ih, e']; simp only [newlinesOf_append, newlinesOf_noEol a h2]
     simp [newlinesOf]
-  | case9 fuel p r' a b hs hb1 hb2 _ ih => simp [newlinesOf] at ih ⊢; simp [ih]
-  | case10 fuel p r h1' h2' _ ih => simp [newlinesOf] at ih ⊢; simp [ih]
-  | case11 fuel p c r hc1 hc2 ih => simp [newlinesOf, List.filter_cons] at ih ⊢; simp [ih]
+  | case9 fuel p r' a _ hs =>
+    obtain ⟨h1, h2, _⟩ := spanLine_eq _ _ _ hs
+    subst h1
+    have e' : '/' :: '/' :: (a ++ ['\r']) = ['/', '/'] ++ a ++ ['\r'] := by simp
+    rw [e']; simp only [newlinesOf_append, newlinesOf_noEol a h2]
+    simp [newlinesOf]
+  | case10 fuel p r' a t _ hs ih =>
+    obtain ⟨h1, h2, _⟩ := spanLine_eq _ _ _ hs
+    subst h1
+    have e' : '/' :: '/' :: (a ++ '\r' :: '\n' :: t) = ['/', '/'] ++ a ++ ['\r'] ++ ('\n' :: t) := by simp
+    rw [ih, e']; simp only [newlinesOf_append, newlinesOf_noEol a h2]
+    simp [newlinesOf]
+  | case11 fuel p r' a b hs hb1 hb2 hb3 hb4 _ ih => simp [newlinesOf] at ih ⊢; simp [ih]
+  | case12 fuel p r h1' h2' _ ih => simp [newlinesOf] at ih ⊢; simp [ih]
+  | case13 fuel p c r hc1 hc2 ih => simp [newlinesOf, List.filter_cons] at ih ⊢; simp [ih]
 
 theorem newlines_preserved (p : Option Char) (l : List Char) : newlinesOf (stripFrom p l) = newlinesOf l :=
   newlines_stripAux _ p l
